@@ -174,9 +174,20 @@ def rule_r2(rep, repo):
             if not (isinstance(chunk_arg, ast.Subscript) and isinstance(chunk_arg.slice, ast.Slice)
                     and norm(chunk_arg.value) == pts):
                 raise AnalysisError("unrecognised idiom: chunk is not `points[start:start+size]`")
-            start = norm(chunk_arg.slice.lower)
+            def through_locals(e_):
+                """A name assigned exactly once inside the loop stands for its definition."""
+                hops_ = 0
+                while isinstance(e_, ast.Name) and hops_ < 4:
+                    dfn_ = [st.value for st in ast.walk(scope) if isinstance(st, ast.Assign) and len(st.targets) == 1
+                            and isinstance(st.targets[0], ast.Name) and st.targets[0].id == e_.id]
+                    if len(dfn_) != 1:
+                        break
+                    e_ = dfn_[0]
+                    hops_ += 1
+                return e_
+            start = norm(through_locals(chunk_arg.slice.lower)) if chunk_arg.slice.lower is not None else "None"
             step = norm(it.args[2])
-            upper = norm(chunk_arg.slice.upper)
+            upper = norm(through_locals(chunk_arg.slice.upper)) if chunk_arg.slice.upper is not None else "None"
             if start == v and upper in (f"{v} + {step}", f"{step} + {v}") and norm(it.args[0]) == "0":
                 rep.ok("R2.chunk-slice", "BeckeWeights.__call__", where, f"{pts}[{start}:{upper}] for {v} in {norm(it)}")
             else:
@@ -421,10 +432,36 @@ def rule_r5(rep, repo):
     f = repo.method("HirshfeldWeights", "__call__")
     body = strip_docstring(f.node.body)
     loop = next((s for s in body if isinstance(s, ast.For)), None)
-    if loop is None or not norm(loop.iter).startswith("enumerate(atnums"):
-        raise AnalysisError("unrecognised idiom: HirshfeldWeights.__call__ has no loop over enumerate(atnums)")
-    vg, pre = _loop_graph(repo, "HirshfeldWeights", f, loop, ["I", "Z"])
     I, Z = ("sym", "I"), ("sym", "Z")
+    atn = f.params[3]
+    if loop is not None and norm(loop.iter).startswith(f"enumerate({atn}"):
+        vg, pre = _loop_graph(repo, "HirshfeldWeights", f, loop, ["I", "Z"])
+    else:
+        # the pro-atoms may come from a generator helper that yields one per atom, in atom order:
+        #   def gen(points, atcoords, atnums): for i, z in enumerate(atnums): yield E(i, z)
+        gen = _per_atom_generator(repo, f, loop, atn) if loop is not None else None
+        if gen is None:
+            raise AnalysisError(f"unrecognised idiom: HirshfeldWeights.__call__ has no loop over enumerate({atn})")
+        helper, call = gen
+        vg, pre = _loop_graph(repo, "HirshfeldWeights", f, loop, [])
+        hv = e5.VG(repo, "HirshfeldWeights", helper.node, inline=False)
+        hp = [p_ for p_ in helper.params if p_ not in ("self", "cls")]
+        for p_, a_ in zip(hp, call.args):
+            hv.env[p_] = vg.ev(a_)
+        hloop = next(s_ for s_ in strip_docstring(helper.node.body) if isinstance(s_, ast.For))
+        hv.env[hloop.target.elts[0].id] = I
+        hv.env[hloop.target.elts[1].id] = Z
+        yv = None
+        for s_ in hloop.body:
+            if isinstance(s_, ast.Expr) and isinstance(s_.value, ast.Yield):
+                yv = hv.ev(s_.value.value)
+            else:
+                hv.stmt(s_)
+        # re-run the loop body with the element bound to what the generator yields
+        vg.env = dict(pre)
+        vg.env[loop.target.elts[0].id] = I
+        vg.env[loop.target.elts[1].id] = yv
+        vg.run(loop.body)
     I1 = e5.mk_ac("+", [I, ("const", "1")])
     pts, atc, ind = (("sym", p) for p in (f.params[1], f.params[2], f.params[4]))
     where = repo.rel("hirshfeld", loop)
@@ -468,6 +505,41 @@ def rule_r5(rep, repo):
             rep.violation("R5.hirshfeld-share", cons, k,
                           f"the Hirshfeld weight is no longer pro-atom / pro-molecule on each atom's own segment: "
                           f"obligation `{k}` is not met", where)
+
+
+def _per_atom_generator(repo, f, loop, atn):
+    """(helper, call) when the loop runs over enumerate(<generator call>) and the helper's body is one
+    `for i, z in enumerate(<the parameter that receives atnums>): ...; yield E` loop."""
+    it = loop.iter
+    if not (isinstance(it, ast.Call) and norm(it.func) == "enumerate" and len(it.args) == 1 and
+            isinstance(loop.target, ast.Tuple) and len(loop.target.elts) == 2):
+        return None
+    src = it.args[0]
+    if isinstance(src, ast.Name):
+        dfn = [st.value for st in ast.walk(f.node) if isinstance(st, ast.Assign) and len(st.targets) == 1
+               and isinstance(st.targets[0], ast.Name) and st.targets[0].id == src.id]
+        if len(dfn) != 1:
+            return None
+        src = dfn[0]
+    if not (isinstance(src, ast.Call) and isinstance(src.func, ast.Attribute)):
+        return None
+    helper = repo.resolve_method("HirshfeldWeights", src.func.attr)
+    if helper is None:
+        return None
+    hp = [p_ for p_ in helper.params if p_ not in ("self", "cls")]
+    hbody = strip_docstring(helper.node.body)
+    if len(hbody) != 1 or not isinstance(hbody[0], ast.For) or len(hp) != len(src.args):
+        return None
+    hl = hbody[0]
+    amap = {p_: norm(a_) for p_, a_ in zip(hp, src.args)}
+    if not (isinstance(hl.iter, ast.Call) and norm(hl.iter.func) == "enumerate" and len(hl.iter.args) == 1 and
+            amap.get(norm(hl.iter.args[0])) == atn and isinstance(hl.target, ast.Tuple) and len(hl.target.elts) == 2):
+        return None
+    yields = [n for n in ast.walk(hl) if isinstance(n, (ast.Yield, ast.YieldFrom))]
+    if len(yields) != 1 or not isinstance(yields[0], ast.Yield) or not any(
+            isinstance(s_, ast.Expr) and s_.value is yields[0] for s_ in hl.body):
+        return None
+    return helper, src
 
 
 def run(tier="quick", root="/repo", evidence_dir=None, quiet=False):
